@@ -8,6 +8,9 @@ props = [json.loads(l) for l in open(os.path.join(VERIF, "properties.jsonl"))]
 
 # id -> (engine, technique, level text, level note, design ref)
 CHECKS = {
+    "C02": ("pbt-programs", "Hypothesis-generated unit expression trees in five spellings, compiled as static_assert batches: is_same of DimT/MagT against model-spelled canonical types, equivalence/ratio predicates on pairs built equal-by-another-route or as near misses, type identity of permuted products",
+            "Exploration: a fixed grid (every library unit x 5 spellings, every derived unit against its physical definition, every prefix) plus thousands of random trees/pairs per run, each judged individually under rotating (thorough: all six) compiler configurations. No completeness over all expression trees.",
+            "trusts the independently written unit table (auverif/model.py), Python Fractions, and the compilers' static_assert verdicts", "4/C02"),
     "C03": ("pbt-values", "generated instances (grid + Hypothesis) x exhaustive 8/16-bit loops + boundary sets + rapidcheck draws vs exact 128-bit oracle under ASan/UBSan",
             "Exploration: every 8/16-bit value for every generated factor, +-3 neighbourhoods of all model thresholds and rapidcheck draws for 32/64-bit reps (all 2^32 for a rotating subset in the thorough tier); a cleared conversion must equal the exact x*N/D and run sanitizer-clean. Not a proof for 64-bit reps.",
             "trusts the __int128 oracle, g++ sanitizers, and the model of when a conversion compiles", "4/C03"),
